@@ -197,9 +197,14 @@ func (ctx *cmdContext) info(cs *clientState) string {
 	return ctx.infoWorker(cs, isAbortedExecElsewhere(cs, nil))
 }
 
-// for callers that own the data store of ctx (EXEC): only that data store is looked at
+// for callers that run inside EXEC: only the data store that the EXEC owns is looked at
+// (after a queued SELECT that is not the data store of ctx)
 func (ctx *cmdContext) infoUnlocked(cs *clientState) string {
-	return ctx.infoWorker(cs, isAbortedExecUnlocked(cs, ctx.dsc.ds))
+	owned := ctx.dsc.ds
+	if ctx.cs.execDsc != nil {
+		owned = ctx.cs.execDsc.ds
+	}
+	return ctx.infoWorker(cs, isAbortedExecUnlocked(cs, owned))
 }
 
 func (ctx *cmdContext) infoWorker(cs *clientState, abortedExec bool) string {
